@@ -377,6 +377,11 @@ pub fn decode_full_report(payload: &[u8]) -> Result<([[u8; 32]; 3], &[u8]), Repo
         report_context[idx] = context;
     }
 
+    // The offset is a 256-bit ABI word: the high bytes must be zero.
+    if payload[96..120].iter().any(|b| *b != 0) {
+        return Err(ReportError::InvalidLength("offset"));
+    }
+
     // Decode the offset for the bytes reportBlob data
     let offset = usize::from_be_bytes(
         payload[96..128][24..Report::WORD_SIZE] // Offset value is stored as Little Endian
@@ -395,6 +400,11 @@ pub fn decode_full_report(payload: &[u8]) -> Result<([[u8; 32]; 3], &[u8]), Repo
         .ok_or(ReportError::InvalidLength("offset + WORD_SIZE overflow"))?;
     if length_end > payload.len() {
         return Err(ReportError::InvalidLength("length word out of range"));
+    }
+
+    // The length is a 256-bit ABI word as well: the high bytes must be zero.
+    if payload[offset..length_end][..24].iter().any(|b| *b != 0) {
+        return Err(ReportError::InvalidLength("bytes data"));
     }
 
     // Decode the length of the bytes reportBlob data
